@@ -160,11 +160,12 @@ type State struct {
 	dead     bool
 	events   []Event
 	ghost    map[string]string // named ghost scalars (terms)
+	dirty    map[string]bool // heap arrays written at a location that existed before this path (frame)
 	lit      map[string]map[string]Val // heap array -> literal index -> stored value (fresh objects)
 }
 
 func newState() *State {
-	return &State{heap: map[string]string{}, cells: map[*Cell]Val{}, globals: map[*ssa.Global]Val{}, held: map[string]int{}, released: map[string]bool{}, ghost: map[string]string{}, lit: map[string]map[string]Val{}}
+	return &State{heap: map[string]string{}, cells: map[*Cell]Val{}, globals: map[*ssa.Global]Val{}, held: map[string]int{}, released: map[string]bool{}, ghost: map[string]string{}, dirty: map[string]bool{}, lit: map[string]map[string]Val{}}
 }
 
 func (s *State) clone() *State {
@@ -199,6 +200,10 @@ func (s *State) clone() *State {
 			m[a] = b
 		}
 		t.lit[k] = m
+	}
+	t.dirty = make(map[string]bool, len(s.dirty))
+	for k, v := range s.dirty {
+		t.dirty[k] = v
 	}
 	t.ghost = make(map[string]string, len(s.ghost))
 	for k, v := range s.ghost {
@@ -369,6 +374,7 @@ func (x *Run) havocArr(st *State, name string) {
 		return
 	}
 	st.heap[name] = x.d.fresh(name+"$h", s)
+	st.dirty[name] = true
 	delete(st.lit, name)
 }
 
@@ -382,6 +388,38 @@ func (x *Run) havocAll(st *State) {
 	x.mu.Unlock()
 	st.heap = map[string]string{}
 	st.lit = map[string]map[string]Val{}
+	st.dirty["*"] = true
+}
+
+// havocAllExcept forgets the heap but keeps the arrays whose name contains one
+// of the given substrings (a contract's "preserves" clause).
+func (x *Run) havocAllExcept(st *State, keep []string) {
+	if len(keep) == 0 {
+		x.havocAll(st)
+		return
+	}
+	saved := map[string]string{}
+	x.mu.Lock()
+	var names []string
+	for n := range x.arrSorts {
+		names = append(names, n)
+	}
+	x.mu.Unlock()
+	for _, n := range names {
+		for _, k := range keep {
+			if strings.Contains(n, k) {
+				saved[n] = x.arr(st, n)
+			}
+		}
+	}
+	lit := st.lit
+	x.havocAll(st)
+	for n, t := range saved {
+		st.heap[n] = t
+		if l, ok := lit[n]; ok {
+			st.lit[n] = l
+		}
+	}
 }
 
 func (x *Run) newCell(name string, ty types.Type) *Cell {
